@@ -774,6 +774,48 @@ def rule_fields_reach_predicates(ctx: Ctx, rid="C02.FIELDS-REACH-PREDICATES"):
     return n
 
 
+def rule_recompile_like_fresh(ctx: Ctx, rid="C11.RECOMPILED-LIKE-FRESH", consequence=""):
+    """Two-text histories through the evaluator's own entry point, interpreted as written: an evaluator constructed from one text
+    and given a second one through recompile() must hand to compile/exec the same text as a fresh evaluator of the second text.
+    The first text has more splitters and condition fields than the second, and the other way round (anything the generator or
+    the evaluator keeps from the earlier compilation shows as a difference).  Histories that cannot be followed are notes."""
+    fam = PL.Family("quick", ())
+    b = fam.b
+    big = lambda: fam.prog(("if", [("cmp", "KW_EQ", ("id", b.ident("cond_a")), ("lit", b.integer(), False))], fam.groups(2),    # noqa: E731
+                           ("else", fam.groups(1))), True, ("zeta_s", "alpha_s", "extra_s"), "three splitters and a condition field")
+    small = lambda: fam.prog(fam.groups(2), True, ("alpha_s",), "one splitter, no condition")                                     # noqa: E731
+    other = lambda: fam.prog(("if", [("cmp", "KW_IN", ("id", b.ident("cond_b")), ("tuple", [("lit", b.string(), False), ("lit", b.string(), False)]))],   # noqa: E731
+                             fam.groups(1), ("else", fam.groups(2))), False, ("alpha_s", "beta_s"), "no salt, two splitters, another condition field")
+    con = f"{GEN}:PythonCodeGen.generate <- ExperimentEvaluator.recompile"
+    n = followed = 0
+    for prev, nxt in ((big(), small()), (small(), big()), (big(), other()), (other(), small())):
+        try:
+            outs = PL.run_history(ctx.pipeline, prev, nxt)
+        except (A.Unsupported, AnalysisError) as e:
+            ctx.rep.note(f"history `{prev.label}` -> `{nxt.label}` could not be followed ({str(e)[:100]})")
+            continue
+        for assumptions, after, fresh in outs:
+            n += 1
+            if after is None or fresh is None:
+                continue
+            followed += 1
+            label = f"construct({prev.label}); recompile({nxt.label})"
+            if after != fresh:
+                import difflib
+                d = [l for l in difflib.unified_diff(fresh.splitlines(), after.splitlines(), lineterm="", n=0) if l[:1] in "+-" and l[:3] not in ("+++", "---")]
+                ctx.rep.bad(rid, con + f"[{label}]", "a recompiled evaluator does not compile the text a fresh evaluator of the same source compiles: "
+                            f"fresh `{(d[0][1:] if d else '')[:90].strip()}` / after the history `{(d[1][1:] if len(d) > 1 else '')[:90].strip()}` "
+                            "(something of the earlier compilation is kept)" + (f": {consequence}" if consequence else ""),
+                            text=f"history|{prev.label}|{nxt.label}", witness={"history": label, "fresh": fresh[:600], "recompiled": after[:600]})
+            else:
+                ctx.rep.ok(rid, con + f"[{label}]", "the text compiled after the history equals the text a fresh evaluator compiles")
+    if not followed:
+        fails = getattr(ctx.pipeline, "history_failures", [])
+        ctx.rep.note(f"two-text histories through recompile() could not be followed ({(fails[0] if fails else 'no text captured')[:120]}): "
+                     "the lifecycle rules alone decide")
+    return followed
+
+
 # ------------------------------------------------------------------ C14 layouts
 def rule_layouts_agree(ctx: Ctx, rid="C14.LAYOUTS-AGREE"):
     by_prog = {}
